@@ -1035,16 +1035,26 @@ fn gen_merged(r: &mut Rng, n: usize, out: &mut dyn Write) {
                 writeln!(out, "# merged-meta C12 {} {}", ncomp + 1, ncomp).unwrap();
             };
             report(out);
-            writeln!(out, "xanim 61 60 {}", vals_line(r, shape, true).join(" ")).unwrap();
-            for round in 0..3 {
+            let v0 = vals_line(r, shape, true).join(" ");
+            writeln!(out, "xanim 61 60 {}", v0).unwrap();
+            // the same animator over the plain merge of the same components (slot 0): what a timeline *reports* as its duration
+            // (longer or shorter than the stretch over which its values move) has no say in the values — they are the
+            // timeline evaluated at the time spent in the state (C05)
+            writeln!(out, "anim 62 {} 2 0 {} 0 -", shape, v0).unwrap();
+            for round in 0..4 {
                 let which = r.below(ncomp as u64);
-                let extra = if round == 2 { 0.0 } else { r.pick(&[0.5f32, 2.0, 8.0, 64.0, 1024.0]) };
+                let extra = if round == 2 { 0.0 } else { r.pick(&[0.5f32, 2.0, 8.0, 64.0, 1024.0, -0.5, -2.0, -8.0, -1024.0]) };
                 writeln!(out, "xextra 60 {} {}", which, b(extra)).unwrap();
+                // a shortened report on every component: the merge as a whole claims to be over before its values stop moving
+                if extra < 0.0 { for c in 0..ncomp { writeln!(out, "xextra 60 {} {}", c, b(extra)).unwrap(); } }
                 report(out);
-                for dt in [0.0f32, r.pick(&[0.25f32, 1.0, 4.0, 16.0, 128.0])] {
+                let steps: Vec<f32> = if extra < 0.0 { vec![0.0, 0.125, 0.25, r.pick(&[0.5f32, 1.0, 4.0])] } else { vec![0.0, r.pick(&[0.25f32, 1.0, 4.0, 16.0, 128.0, 0.125, 0.5])] };
+                for dt in steps {
                     writeln!(out, "xadv 61 {}", b(dt)).unwrap();
                     for c in 0..ncomp { writeln!(out, "xmetac 60 {}", c).unwrap(); }
                     writeln!(out, "# endediff C07 {} {}", ncomp + 1, ncomp).unwrap();
+                    writeln!(out, "adv 62 {}", b(dt)).unwrap();
+                    writeln!(out, "# eqv C05 1 {}", ncomp + 3).unwrap();
                 }
             }
         }
